@@ -130,6 +130,7 @@ type sentMeta struct {
 }
 
 type bDown struct {
+	OpenLink  int
 	Idx       int
 	ID        uuid.UUID
 	Alias     uint32
@@ -562,7 +563,7 @@ func (b *Broker) Handle(l *Link, m message.Message) {
 		b.reply(b.Cfg.AutoCallAck, &pend{Kind: "callack", Link: l, Desc: "callack " + t.CallID, Msg: &message.UpstreamCallAck{
 			CallID: t.CallID, ResultCode: code, ResultString: "ack:" + t.Name, ExtensionFields: &message.UpstreamCallAckExtensionFields{}}})
 	case *message.DownstreamOpenRequest:
-		d := &bDown{Idx: len(b.Downs), ID: mkUUID(0xD0, len(b.Downs)+1), Alias: t.DesiredStreamIDAlias, Open: t, QoS: t.QoS, link: l,
+		d := &bDown{OpenLink: l.ID, Idx: len(b.Downs), ID: mkUUID(0xD0, len(b.Downs)+1), Alias: t.DesiredStreamIDAlias, Open: t, QoS: t.QoS, link: l,
 			upAlias: map[uint32]message.UpstreamInfo{}, dataAlias: map[uint32]message.DataID{}}
 		for a, id := range t.DataIDAliases {
 			d.dataAlias[a] = *id
@@ -664,6 +665,14 @@ func metaMarker(m *message.UpstreamMetadata) string {
 		return "meta:" + bt.Name
 	}
 	return "meta"
+}
+
+// noteConnectAttempt records a ConnectRequest that the broker saw but did not answer.
+func (b *Broker) noteConnectAttempt(l *Link, t *message.ConnectRequest) {
+	c := b.conn(l)
+	c.Req = t
+	c.Token = t.AccessToken()
+	b.Tokens = append(b.Tokens, c.Token)
 }
 
 // --- broker-initiated traffic ---
